@@ -373,6 +373,18 @@ def check_nav(c, st):
                     % (base, tuple(refs), got, again.to_text()))
     except Exception as e:
         return ('navigate-raised:%s:renormalize' % type(e).__name__, 'normalizing %r raised %r' % (got, e))
+    # ... and normalizing the returned object itself changes none of its attributes either (a port, a scheme or a host
+    # that only settles at the second normalize() makes two equal resolutions compare unequal)
+    try:
+        s1 = snap(cur)
+        cur.normalize()
+        s2 = snap(cur)
+    except Exception as e:
+        return ('navigate-raised:%s:renormalize' % type(e).__name__, 'normalizing the result %r raised %r' % (got, e))
+    if s1 != s2:
+        diff = sorted(k_ for k_ in s1[1] if s1[1][k_] != s2[1][k_])
+        return ('normalize-not-idempotent:attributes', 'URL(%r).navigate%r -> %r; normalize() on that object changes %s: %r -> %r'
+                % (base, tuple(refs), got, diff or 'text/path/query', s1, s2))
     # the caller goes on editing the URLs it was handed; the same navigations done again (from a freshly parsed
     # base) must not be affected by that
     st.monitor_evals += 1
@@ -687,6 +699,15 @@ def run(ctx):
                 for ref in ('', '#t', '?y=2', '?y=2#t', '?', '#', 'x', '.', '../y', '/r', 'x/./y?k=v'):
                     run_case(ctx, {'kind': 'dotbase', 'base': 'http://host/' + '/'.join(segs) + tail, 'ref': ref,
                                    'ref_as_url': bool(j % 3 == 0)}, check, 'dotbase', None, shr)
+    # bases combining two features that each appear alone in BASES (upper-case scheme / host with an explicit default
+    # or other port, userinfo with IPv6, ...), against a handful of references
+    for bi, base in enumerate(['HTTP://Example.COM:80/a/b', 'Ftp://h:21/x/y', 'HTTPS://U@Host:443/p?q=1', 'Http://HOST:8080/a/',
+                               'FTP://H:2121/chat', 'http://h:80', 'HTTP://[::1]:80/a', 'Https://user:pw@H.example:443']):
+        if bi % ctx.nshards != ctx.shard:
+            continue
+        for ref in ('', '#f', 'x', '../y', '?q=1', '/r', '.', 'g/./h?k=v#z'):
+            for as_url in (False, True):
+                run_case(ctx, {'kind': 'nav', 'base': base, 'refs': [ref], 'ref_as_url': as_url}, check, 'combo', None, shr)
     ctx.stats.count('systematic_refs_done', i)
     explore_cases(ctx, gen, check, {'quick': 30000, 'thorough': 750000}[ctx.tier], 'nav')
 
